@@ -66,6 +66,7 @@ CONFIGS = [(k, l, a) for k in KINDS for l in LIMITS for a in INDEXES]
 
 NAMES = ['a/b.txt', 'a/c.txt', 'b.txt', 'a/b', '.cfg', 'd/e/f.tar.gz']
 FORMS = ('s', '2', '3')
+FORMS_X = FORMS + ('3e',)      # used by the name sweep only (the BFS rotates over the three documented forms)
 # two different byte strings with the same CRC-32 (0x4ddb0c25)
 CRC_TWINS = ('plumless', 'buckeroo')
 
@@ -113,6 +114,8 @@ def form_of(name: str, form: str):
         return name
     if form == '2':
         return (folder, stem + ('.' + ext if ext else ''))
+    if form == '3e' and ext:
+        return (folder, stem + '.' + ext, '')       # 3-tuple whose extension slot is empty and whose name is dotted: same file
     return (folder, stem, ext)
 
 
@@ -900,11 +903,11 @@ def sweep_histories(quick: bool) -> dict:
     items = []
     for nm in names:
         for ci in cfgs:
-            for f in FORMS:
+            for f in FORMS_X:
                 o = [['open', 'w']]
                 items.append([ci, o + [['add', nm, f, 6, 0], ['flush']]])
                 items.append([ci, o + [['new', nm, f], ['flush']]])
-                for g in FORMS:
+                for g in FORMS_X:
                     items.append([ci, o + [['add', nm, f, 6, 0], ['write', nm, g, 9, 1], ['flush']]])
                     items.append([ci, o + [['add', nm, f, 6, 0], ['flush'], ['reopen', 'a'], ['del', nm, g], ['flush']]])
     # long name parts around the reader's block sizes (directory strings are NUL-terminated, read in blocks)
@@ -974,6 +977,19 @@ def sweep_histories(quick: bool) -> dict:
                             if not quick or victim == sub[-1]:
                                 items.append([ci, [['open', 'w']] + adds + [['del', NAMES[victim], 's'], ['flush']]])
     out['mixed_delete'] = items
+    # (C''') archive indexes at the edges of the 16-bit field (0x7fff itself means "stored in the directory file")
+    items = []
+    high = [0x7ffe, 0x8000, 0xfffe]
+    for ci, cfg in enumerate(CONFIGS):
+        if cfg[0] != 'dir' or cfg[2] != 0:
+            continue
+        lim = cfg[1] or 0
+        for a_i in high + [None]:
+            for b_i in high:
+                h = [['open', 'w'], ['add', NAMES[0], 's', lim + 9, 0, a_i], ['add', NAMES[2], '2', lim + 5, 0, b_i], ['flush'],
+                     ['reopen', 'a'], ['write', NAMES[0], '3', lim + 12, 1, b_i], ['flush'], ['reopen', 'r']]
+                items.append([ci, h])
+    out['high_index'] = items
     # (D) overwrite with different data of equal CRC-32
     items = []
     for ci, cfg in enumerate(CONFIGS):
@@ -1032,7 +1048,7 @@ def run(ctx: core.Ctx) -> None:
         f'every step): all {n_names} representable names of length <= {4 if q else 5} over [a b . /] x add form x access form x '
         '{add, new_file, overwrite, reopen-a + delete}; every non-empty subset of the 6 menu names x size rotation x 24 '
         'configurations followed by reopen-a + delete/overwrite; the same subsets on dir archives with the archive index '
-        'varying per file (None/0/1 within one archive) followed by reopen-a + two overwrites into other indexes; equal-sized files on every assignment of 2-3 files to footer/pak_000/pak_001 followed by deleting each one (with and without reopen); names with parts of 31..257 characters; overwrite with CRC-32-colliding data. '
+        'varying per file (None/0/1 within one archive) followed by reopen-a + two overwrites into other indexes; equal-sized files on every assignment of 2-3 files to footer/pak_000/pak_001 followed by deleting each one (with and without reopen); names with parts of 31..257 characters; archive indexes 0x7ffe / 0x8000 / 0xfffe; the 3-tuple spelling with an empty extension slot and a dotted name; overwrite with CRC-32-colliding data. '
         'Non-trivial = the resulting state has a written directory holding >= 1 file whose bytes were compared after a '
         'fresh open. Each (parent state, operation) pair is enumerated once.')
     ctx.assumptions.append(
